@@ -88,15 +88,16 @@ def main():
         seqs = json.load(f)["seqs"]
     seqs = [s for s in seqs if any(x[0] == "map" for x in s)]
     quick = a.tier == "quick"
-    specs = [s for s in GR.fixed_specs() if s["id"] in SPEC_IDS]
+    # ... and the raw-source grammars whose context-dependent refinements can make a production fail while it is built
+    specs = [s for s in GR.fixed_specs() if s["id"] in SPEC_IDS] + list(GR.RAW)
     k = 0
     for spec in specs:
-        b = GR.build(spec)
+        b = GR.build_raw(spec) if "source" in spec else GR.build(spec)
         try:
             g = extract_grammar(b.considered, b.start)
             decl = b.oracle()
             d = int(g.get_min_tree_depth()) + 2
-            refined = "refined" if any("IntRange" in repr(c["fields"]) or "VarRange" in repr(c["fields"])
+            refined = "refined" if "source" in spec or any("IntRange" in repr(c["fields"]) or "VarRange" in repr(c["fields"])
                                        for c in spec["classes"]) else "unrefined"
             reps = [
                 ("ge", lambda s: GrammaticalEvolutionRepresentation(g, MaxDepthDecider(s, g, d), gene_length=32)),
